@@ -909,6 +909,7 @@ func c29Extras3(c *Ctx) {
 // (RFC 8446 4.2.11: it MUST be the last extension; unmarshal, marshalWithoutBinders and updateBinders rely on it).
 func c30Extras3(c *Ctx) {
 	w := c.W
+	c30GuardRule(c)
 	psk := int64(-1)
 	if p := w.Pkg("z/tls"); p != nil {
 		if k, ok := p.Types.Scope().Lookup("extensionPreSharedKey").(*types.Const); ok {
@@ -959,4 +960,169 @@ func c30Extras3(c *Ctx) {
 		}
 	}
 	c.Check(n >= 1 && psk > 0, "R-ORDER", "tls.clientHelloMsg.marshal", "the pre_shared_key block found", "-", fmt.Sprint(n))
+}
+
+// c31Extras3: the version sealed into a TLS <= 1.2 session ticket is the negotiated one (c.vers), which is what
+// checkForResumption compares it with.
+func c31Extras3(c *Ctx) {
+	w := c.W
+	fn := w.Fn("(*z/tls.serverHandshakeState).sendSessionTicket")
+	if fn == nil {
+		c.Undecided("R-PROV", "tls.serverHandshakeState.sendSessionTicket", "anchor", "-", "not found")
+		return
+	}
+	n := 0
+	for _, fw := range w.FieldWrites()["sessionState.vers"] {
+		if fw.Fn != fn || fw.Kind != "store" {
+			continue
+		}
+		n++
+		c.Sites++
+		e := Expr(fw.Val)
+		c.Check(e == "hs.c.vers" || e == "c.vers", "R-PROV", "tls.serverHandshakeState.sendSessionTicket", "the ticket records the negotiated version Conn.vers", w.InstrPos(fw.In), e)
+	}
+	c.Check(n == 1, "R-PROV", "tls.serverHandshakeState.sendSessionTicket", "store of sessionState.vers found", w.Pos(fn.Pos()), fmt.Sprint(n))
+}
+
+// pairedGuards: a hand-rolled two-pass encoder sizes its buffer first and fills it afterwards; every optional part
+// must be guarded by the same condition in both passes. The non-loop branch conditions of fn, other than those in
+// ignore, each occur exactly twice.
+func (c *Ctx) pairedGuards(fn *ssa.Function, what string, ignore func(string) bool) {
+	w := c.W
+	counts := map[string]int{}
+	pos := map[string]string{}
+	for _, b := range fn.Blocks {
+		iff, ok := b.Instrs[len(b.Instrs)-1].(*ssa.If)
+		if !ok || isLoopHeader(b) {
+			continue
+		}
+		// loop tests of rotated loops sit in the latch block: a successor that dominates this block
+		back := false
+		for _, s := range b.Succs {
+			if s.Dominates(b) {
+				back = true
+			}
+		}
+		if back {
+			continue
+		}
+		e := Expr(iff.Cond)
+		if ignore != nil && ignore(e) {
+			continue
+		}
+		counts[e]++
+		pos[e] = w.InstrPos(iff)
+	}
+	var keys []string
+	for k := range counts {
+		keys = append(keys, k)
+	}
+	sort.Strings(keys)
+	for _, k := range keys {
+		c.Sites++
+		c.Check(counts[k] == 2, "R-SIBLING", short(FuncName(fn)), "optional part guarded by "+k+" is guarded identically when sizing and when writing ("+what+")", pos[k], fmt.Sprintf("the condition occurs %d time(s)", counts[k]))
+	}
+	c.Check(len(keys) >= 1, "R-SIBLING", short(FuncName(fn)), "guards of optional parts found", w.Pos(fn.Pos()), fmt.Sprint(len(keys)))
+}
+
+func c30GuardRule(c *Ctx) {
+	w := c.W
+	fn := w.Fn("(*z/tls.certificateRequestMsg).marshal")
+	if fn == nil {
+		c.Undecided("R-SIBLING", "tls.certificateRequestMsg.marshal", "anchor", "-", "not found")
+		return
+	}
+	c.pairedGuards(fn, "CertificateRequest", func(e string) bool { return strings.Contains(e, ".raw") })
+}
+
+// c33Extras3: cryptoParameter.UnmarshalJSON always installs a number (the encoder writes zero and "unset" alike as
+// an empty value, so decoding an empty value as nil loses a present zero and makes every later use dereference nil).
+func c33Extras3(c *Ctx) {
+	w := c.W
+	fn := w.Fn("(*z/json.cryptoParameter).UnmarshalJSON")
+	if fn == nil {
+		c.Undecided("R-VSET", "json.cryptoParameter.UnmarshalJSON", "anchor", "-", "not found")
+		return
+	}
+	n := 0
+	for _, fw := range w.FieldWrites()["cryptoParameter.Int"] {
+		if fw.Fn != fn || fw.Kind != "store" {
+			continue
+		}
+		n++
+		c.Sites++
+		c.Check(!isNilConst(fw.Val), "R-VSET", "json.cryptoParameter.UnmarshalJSON", fmt.Sprintf("the decoded parameter (#%d) is a number, never nil", n), w.InstrPos(fw.In), Expr(fw.Val))
+	}
+	c.Check(n >= 1, "R-VSET", "json.cryptoParameter.UnmarshalJSON", "store of the decoded number found", w.Pos(fn.Pos()), fmt.Sprint(n))
+}
+
+// rawInputOwners (R-OWN): bytes received from the transport stay in Conn.rawInput until readRecordOrCCS takes a whole
+// record with Next; nothing else removes or rewrites them (a read interrupted by a deadline is resumed from them).
+func rawInputOwners(c *Ctx) {
+	w := c.W
+	allowed := map[string]map[string]bool{
+		"Bytes":    nil,
+		"Len":      nil,
+		"Next":     {"(*tls.Conn).readRecordOrCCS": true},
+		"Grow":     {"(*tls.Conn).readFromUntil": true},
+		"ReadFrom": {"(*tls.Conn).readFromUntil": true},
+	}
+	n := 0
+	for _, fn := range w.FuncsOfPkg("z/tls") {
+		for _, b := range fn.Blocks {
+			for _, in := range b.Instrs {
+				cc := callCommon(in)
+				if cc == nil || cc.IsInvoke() || len(cc.Args) == 0 || !strings.HasPrefix(calleeName(cc), "(*bytes.Buffer).") {
+					continue
+				}
+				if !strings.HasSuffix(Expr(cc.Args[0]), ".rawInput") && !strings.HasSuffix(Expr(cc.Args[0]), ".rawInput)") {
+					fa, ok := cc.Args[0].(*ssa.FieldAddr)
+					if !ok || fieldLeaf(fieldName(fa)) != "rawInput" {
+						continue
+					}
+				}
+				m := strings.TrimPrefix(calleeName(cc), "(*bytes.Buffer).")
+				n++
+				c.Sites++
+				who, listed := allowed[m]
+				ok := listed && (who == nil || who[short(FuncName(fn))])
+				c.Check(ok, "R-OWN", short(FuncName(fn)), "uses rawInput only to look at it, to fill it (readFromUntil) or to take a whole record (readRecordOrCCS): "+m, w.InstrPos(in), m)
+			}
+		}
+	}
+	c.Check(n >= 8, "R-OWN", "z/tls", "uses of Conn.rawInput enumerated", "-", fmt.Sprint(n))
+}
+
+// c35Extras3: NewLRUClientSessionCache replaces the requested capacity by the default only if it is below 1.
+func c35Extras3(c *Ctx) {
+	w := c.W
+	fn := w.Fn("z/tls.NewLRUClientSessionCache")
+	if fn == nil || len(fn.Params) != 1 {
+		c.Undecided("R-CUT", "tls.NewLRUClientSessionCache", "anchor", "-", "not found")
+		return
+	}
+	p := fn.Params[0]
+	n := 0
+	for _, fw := range w.FieldWrites()["lruSessionCache.capacity"] {
+		if fw.Fn != fn || fw.Kind != "store" {
+			continue
+		}
+		n++
+		c.Sites++
+		in, val := fw.In, fw.Val
+		c.Cut(CutSpec{Rule: "R-CUT", Fn: fn, Label: "the cache gets a capacity other than the requested one only if the request is below 1", MinTargets: -1, Track: []ssa.Value{val},
+			Target: func(i2 ssa.Instruction, res resolver) bool { return i2 == in && res(val) != ssa.Value(p) },
+			Cut: func(f Fact) bool {
+				if f.X != ssa.Value(p) || f.Y == nil {
+					return false
+				}
+				k, ok := f.Y.(*ssa.Const)
+				if !ok {
+					return false
+				}
+				v, exact := constantInt64(k)
+				return exact && (f.Op == "lt" && v == 1 || f.Op == "le" && v == 0)
+			}})
+	}
+	c.Check(n == 1, "R-CUT", "tls.NewLRUClientSessionCache", "store of the capacity found", w.Pos(fn.Pos()), fmt.Sprint(n))
 }
